@@ -1,5 +1,6 @@
 import PyecoreModel.Lemmas.XmiValues
 import PyecoreModel.Lemmas.XmiDoc
+import PyecoreModel.Lemmas.XmiDocRefs
 import PyecoreModel.Properties.C11
 import PyecoreModel.Properties.C17
 /-!
@@ -87,6 +88,23 @@ theorem C08_document (mm : MMX) (o : Opts) (hmm : MMOK mm) (render : Path → St
     (encodeDoc mm o render roots).bind (decodeDoc mm o parse) = some (roots.map (eff mm o true)) :=
   doc_roundtrip mm o hmm render parse roots hwf hres
 
+/-- the text of a fragment path reads back as the path (`eURIFragment` / `extract_rootnum_and_frag` + `_navigate_from`),
+    for every path over feature names without `/` and `.` -/
+theorem C08_fragment_text (single : Bool) (p : Path) (hn : ∀ s ∈ p.segs, NameOK s.1) (hroot : single = true → p.root = 0) :
+    parsePath (renderPath single p) = some p :=
+  parse_render single p hn hroot
+
+/-- **Document-level round trip, fragment addressing — no resolution hypothesis left.**  A resource without uuids over
+    a metamodel without id attributes: for every forest of well-formed objects whose references point into the forest,
+    loading the saved document gives every root's normal form with every reference on its original target. -/
+theorem C08_document_fragment (mm : MMX) (o : Opts) (hmm : MMOK mm) (single : Bool) (roots : List (SNode Path))
+    (hu : o.uuid = false) (hid : ∀ c, ∀ fi ∈ mm.feats c, fi.isId = false)
+    (hsingle : single = true → roots.length = 1)
+    (hwf : ∀ r ∈ roots, WFG mm (fun p => Word mm.ws (renderPath single p)) r)
+    (hrefs : ∀ r ∈ roots, AllRefs (fun p => (nodeAt roots p).isSome = true ∧ (∀ s ∈ p.segs, NameOK s.1 ∧ '#' ∉ s.1)) r) :
+    (encodeDoc mm o (renderPath single) roots).bind (decodeDoc mm o parsePath) = some (roots.map (eff mm o true)) :=
+  doc_roundtrip_fragment mm o hmm single roots hu hid hsingle hwf hrefs
+
 section Example
 /-- a two-class metamodel: `A` with a many-valued string attribute `tags`, a single-valued `n` defaulting to "0", a
     many-valued containment `kids : A`, a single containment `one : B`, a many-valued reference `refs : A`;
@@ -117,5 +135,83 @@ example :
     (encodeDoc exMM ⟨true, true⟩ (renderPath true) exForest).bind (decodeDoc exMM ⟨true, true⟩ parsePath)
       = some (exForest.map (eff exMM ⟨true, true⟩ true)) := by decide +kernel
 end Example
+
+end XDoc
+
+/-! non-vacuity: a concrete forest meets every hypothesis of `C08_document_fragment` -/
+namespace XDoc
+open Xmi
+
+def tinyMM : MMX :=
+  { nCls := 1
+    cname := fun _ => "A".toList
+    feats := fun _ => [⟨"n".toList, .attr, false, none, 0, false, false⟩, ⟨"kids".toList, .cont, true, none, 0, false, false⟩,
+                       ⟨"to".toList, .ref, false, none, 0, false, false⟩]
+    ws := fun c => c == ' ' }
+
+def tinyForest : List (SNode Path) :=
+  [.mk [] 0 [] [("n".toList, .attr1 "x y".toList), ("kids".toList, .kids), ("to".toList, .ref1 ⟨0, [("kids".toList, some 0)]⟩)]
+     [.mk "kids".toList 0 [] [] []]]
+
+theorem tinyMM_ok : MMOK tinyMM := by
+  refine ⟨by decide, ?_, ?_, ?_⟩
+  · intro c fi hfi
+    simp only [tinyMM, List.mem_cons, List.mem_nil_iff, or_false] at hfi
+    rcases hfi with rfl | rfl | rfl <;> rfl
+  · intro c; show ((tinyMM.feats 0).map (·.name)).Nodup; decide
+  · intro c hc
+    have : c = 0 := by simp [tinyMM] at hc; omega
+    subst this; decide
+
+example :
+    (∀ r ∈ tinyForest, WFG tinyMM (fun p => Word tinyMM.ws (renderPath true p)) r) ∧
+    (∀ r ∈ tinyForest, AllRefs (fun p => (nodeAt tinyForest p).isSome = true ∧ (∀ s ∈ p.segs, NameOK s.1 ∧ '#' ∉ s.1)) r) := by
+  constructor
+  · intro r hr
+    simp only [tinyForest, List.mem_singleton] at hr
+    subst hr
+    refine WFG.mk _ _ _ _ _ (by decide) (by decide) ?_ ?_ ?_ ?_
+    · intro e he
+      simp only [List.mem_cons, List.mem_nil_iff, or_false] at he
+      rcases he with rfl | rfl | rfl
+      · exact ⟨_, rfl, Or.inr ⟨rfl, rfl⟩⟩
+      · exact ⟨_, rfl, Or.inr rfl⟩
+      · refine ⟨_, rfl, Or.inr ⟨rfl, rfl, ?_⟩⟩
+        refine ⟨by decide, ?_⟩
+        intro c hc
+        have : c ∈ "//@kids.0".toList := hc
+        simp only [String.toList] at this
+        revert c
+        decide
+    · intro k hk
+      simp only [List.mem_singleton] at hk
+      subst hk
+      exact WFG.mk _ _ _ _ _ (by decide) (by decide) (by intro e he; cases he) (by intro k hk; cases hk) (by intro k hk; cases hk)
+        (by intro fi _ _ _; simp)
+    · intro k hk
+      simp only [List.mem_singleton] at hk
+      subst hk
+      exact ⟨_, rfl, rfl, by decide⟩
+    · intro fi hfi _ hm
+      simp only [tinyMM, List.mem_cons, List.mem_nil_iff, or_false] at hfi
+      rcases hfi with rfl | rfl | rfl <;> simp_all
+  · intro r hr
+    simp only [tinyForest, List.mem_singleton] at hr
+    subst hr
+    refine AllRefs.mk _ _ _ _ _ ?_ ?_
+    · intro e he
+      simp only [List.mem_cons, List.mem_nil_iff, or_false] at he
+      rcases he with rfl | rfl | rfl
+      · trivial
+      · trivial
+      · refine ⟨by decide, ?_⟩
+        intro s hs
+        simp only [List.mem_singleton] at hs
+        subst hs
+        exact ⟨⟨by decide, by decide⟩, by decide⟩
+    · intro k hk
+      simp only [List.mem_singleton] at hk
+      subst hk
+      exact AllRefs.mk _ _ _ _ _ (by intro e he; cases he) (by intro k hk; cases hk)
 
 end XDoc
